@@ -153,6 +153,33 @@ func (g *FuncGen) execCall(x *ssa.Call, st *State) error {
 	for i := 0; i < nres; i++ {
 		g.assumeType(res[i], sig.Results().At(i).Type(), g.allocTerm(st.heap), nr)
 	}
+	// footprint: objects outside it keep their fields in every modified field/cell map
+	if len(c.Footprint) > 0 {
+		var fps []string
+		for _, fe := range c.Footprint {
+			v, err := g.eval(fe, pre)
+			if err != nil {
+				return fmt.Errorf("%s: call to %s: footprint %s: %v", g.fname, c.Key, fe, err)
+			}
+			fps = append(fps, fmt.Sprintf("(= r %s)", v.Term))
+		}
+		in := fps[0]
+		if len(fps) > 1 {
+			in = "(or " + strings.Join(fps, " ") + ")"
+		}
+		for _, m := range mods {
+			if m == "*" || m == "$alloc" {
+				continue
+			}
+			srt := g.eng.sortOfMap(g, m)
+			if srt == "" || !(strings.HasPrefix(m, "F:") || strings.HasPrefix(m, "C:")) {
+				continue
+			}
+			after := g.heapGet(st.heap, m, srt)
+			before := g.heapGet(preHeap, m, srt)
+			g.assert(fmt.Sprintf("(=> %s (forall ((r Int)) (! (=> (not %s) (= (select %s r) (select %s r))) :pattern ((select %s r)))))", nr, in, after, before, after))
+		}
+	}
 	for _, cl := range c.Ensures {
 		// functional postcondition `r == E` of a heap-independent contract: use E itself as the result
 		if nres == 1 && len(c.Results) == 1 && len(mods) == 0 && cl.Expr.Kind == "binop" && cl.Expr.Op == "==" &&
